@@ -53,7 +53,7 @@ Arg(r) ==
   ELSE IF c = 4 THEN (IF (r2 % 2) = 0 THEN [k |-> "rev"] ELSE [k |-> "ease", e |-> Pick(Eases, r3)])
   ELSE LET form == IF (r2 % 3) = 0 THEN "from" ELSE IF (r2 % 11) = 5 THEN "to" ELSE "pct"   \* (`to` also closes every sentence)
            pos == IF form = "from" THEN 0 ELSE IF form = "to" THEN PD ELSE Pick(Positions, r3)
-           m == r3 % 6
+           m == r3 % 7           \* 0: `default`; 6: an empty field list `{ }` (defines nothing)
        IN [k |-> "kf", pos |-> pos, form |-> form, dflt |-> (m = 0),
            d |-> << IF m \in {1, 2, 5} THEN <<Pick(ValX, r2 \div 4)>> ELSE <<>>,
                     IF m \in {2, 3} THEN <<Pick(ValX, r3 \div 7) + 1>> ELSE <<>>,
